@@ -216,6 +216,7 @@ func (e *Engine) RunHarness(cfg *HarnessCfg, nValidate int) (res *HarnessResult)
 	var vioWit []*Witness
 	for {
 		e.p = &PathState{prefix: prefix, occ: map[string]int{}}
+		e.files = map[string]*memFile{}
 		e.stepLimit = defaultStepLimit
 		if cfg.StepBudget > 0 {
 			e.stepLimit = cfg.StepBudget
